@@ -34,8 +34,8 @@ DERIVED = ["edge_node_connectivity", "face_edge_connectivity", "edge_face_connec
 FAMILIES = ["edge_node_connectivity", "face_edge_connectivity", "edge_face_connectivity", "node_face_connectivity",
             "face_face_connectivity", "face_lon", "face_areas", "bounds"]
 XYZ_OK = 10**9
-REPAIRED = "1 1 1 1 1 1 1"
-SINGLE_BLOCK = "1 1 0 0 1 1 1"  # Cfg.repaired with the Exodus fill test / start bookkeeping as they stand
+REPAIRED = "1 1 1 1 1 1 1 1"
+SINGLE_BLOCK = "1 1 0 0 1 1 1 1"  # Cfg.repaired with the Exodus fill test / start bookkeeping as they stand
 
 
 # --------------------------------------------------------------------------------------
@@ -114,6 +114,16 @@ def obs_vars(ds, skip=("grid_topology",)):
             continue
         out.append((str(name), [str(d) for d in var.dims],
                     [(str(k), translate_conv.attr_kind(v)) for k, v in var.attrs.items()]))
+    return out
+
+
+def obs_encoding(ds, skip=("grid_topology",)):
+    """xarray's .encoding of every variable that has one: [(name, [keys])]"""
+    out = []
+    for name, var in ds.variables.items():
+        if name in skip or not var.encoding:
+            continue
+        out.append((str(name), sorted(str(k) for k in var.encoding)))
     return out
 
 
@@ -219,18 +229,41 @@ def file_json(rel):
     return dict(faces=[], xyz=[], kind="file:" + rel, closed=False, source="file", path=rel)
 
 
-def build_grid(ux, m, source, j=None):
+def grid_mesh(g, kind):
+    """the abstract mesh a grid presents, in the grid's own node numbering"""
+    t = np.asarray(g._ds["face_node_connectivity"].values)
+    if "node_lon" in g._ds:
+        xyz = unit(g._ds["node_lon"].values, g._ds["node_lat"].values)
+    else:
+        xyz = np.stack([g._ds["node_x"].values, g._ds["node_y"].values, g._ds["node_z"].values], axis=-1)
+    return meshes.AMesh([[int(v) for v in r if v != INT_FILL] for r in t], xyz, False, kind)
+
+
+def build_grid(ux, m, source, j=None, tmp=None, hit=lambda k: None):
     """the grid and the abstract mesh in the GRID's node numbering (a face-vertex source numbers its nodes itself;
     for a sample file the grid ux.open_grid returns IS the original the exports are compared with)"""
     if source == "file":
         g = ux.open_grid(str(meshfiles_dir() / j["path"]))
-        t = np.asarray(g._ds["face_node_connectivity"].values)
-        if "node_lon" in g._ds:
-            xyz = unit(g._ds["node_lon"].values, g._ds["node_lat"].values)
-        else:
-            xyz = np.stack([g._ds["node_x"].values, g._ds["node_y"].values, g._ds["node_z"].values], axis=-1)
-        m2 = meshes.AMesh([[int(v) for v in r if v != INT_FILL] for r in t], xyz, False, j.get("kind", "file"))
+        m2 = grid_mesh(g, j.get("kind", "file"))
         return g, m2
+    if source.startswith("reopened:"):
+        # a grid that is itself the re-opened FILE of an earlier export (so it carries xarray's .encoding, the
+        # reader's attributes, and - for UGRID/Exodus - every node of the first grid, unused ones included)
+        fmt0 = source.split(":", 1)[1]
+        try:
+            fn = os.path.join(tmp, f"src{len(os.listdir(tmp))}.nc")
+            meshes.to_grid(m, ux).to_xarray(fmt0).to_netcdf(fn)
+            g = ux.open_grid(fn)
+            m2 = grid_mesh(g, m.kind + "+" + source)
+            ids = Locator(m).ids(m2.lon, m2.lat)
+            same = ([[int(ids[v]) for v in f] for f in m2.faces] == Locator(m).name_faces(m.faces)) if fmt0 != "exodus" else (m2.n_face == m.n_face)
+            if same:
+                hit("source:" + source)
+                return g, m2
+            hit("source:reopened-differs-from-first-grid")  # reported by the histories that export the first grid
+        except Exception:
+            hit("source:reopened-could-not-be-built")
+        return meshes.to_grid(m, ux), m
     if source != "xyz":
         return meshes.to_grid(m, ux), m
     verts = np.full((m.n_face, m.width, 3), float(INT_FILL))
@@ -268,22 +301,29 @@ def execute(H, driver, stats=None):
     hit = (lambda k: stats.__setitem__(k, stats.get(k, 0) + 1)) if stats is not None else (lambda k: None)
     reset_module_state()
     ms0 = [mesh_from(j) for j in H["meshes"]]
-    built = [build_grid(ux, m, j.get("source", "topology"), j) for m, j in zip(ms0, H["meshes"])]
+    tmp = tempfile.mkdtemp(prefix="c07_")
+    try:
+        built = [build_grid(ux, m, j.get("source", "topology"), j, tmp, hit) for m, j in zip(ms0, H["meshes"])]
+    except Exception:
+        shutil.rmtree(tmp, ignore_errors=True)
+        raise
     grids, ms = [b[0] for b in built], [b[1] for b in built]
     locs = [Locator(m) for m in ms]
     init_vars = [obs_vars(g._ds, skip=()) for g in grids]
+    init_enc = [obs_encoding(g._ds, skip=()) for g in grids]
     failures, mismatches, steps = [], [], []
     model_ops, impl_outs = [], []
     for gi, (m0, m) in enumerate(zip(ms0, ms)):
         # a face-vertex source must describe the mesh it was given (that is the reader's property, C01)
         if m0 is None:
             hit("source:file")
+        elif H["meshes"][gi].get("source", "").startswith("reopened:"):
+            pass
         elif m is not m0:
             ids = Locator(m0).ids(m.lon, m.lat)
             if [[int(ids[v]) for v in f] for f in m.faces] != m0.faces:
                 mismatches.append(dict(relation="C07/source/face-vertices-grid-differs-from-input", step=-1))
             hit("source:xyz")
-    tmp = tempfile.mkdtemp(prefix="c07_")
 
     def fail(step, sig, what, impl=None, clauses=()):
         failures.append(dict(signature=sig, what=what, step=step, implementation=impl, clauses=list(clauses)))
@@ -337,14 +377,19 @@ def execute(H, driver, stats=None):
             if fmt == "ugrid":
                 vs = obs_vars(out)
                 topo = split_topo(out["grid_topology"].attrs) if "grid_topology" in out else []
-                obs = dict(vars=canon_vars(vs), topo=dict(topo))
+                enc_o = obs_encoding(out)
+                obs = dict(vars=canon_vars(vs), topo=dict(topo), encoding=dict(enc_o))
                 impl_outs.append(("ugrid", obs))
-                v = driver.ask("C07.ugridspec", N.vars(vs), N.topo(topo))
+                v = driver.ask("C07.ugridspec", N.vars(vs), N.topo(topo), N.topo(enc_o))
                 if v != "ok":
                     export_ok = False
                     cl = v.split(" ", 1)[1].split(",")
                     sig = "C07/ugrid/export/" + "+".join(cl)
                     what = "the UGRID export is not self-consistent / writable: " + ", ".join(cl)
+                    if "encoding_conflict" in cl:
+                        clash = sorted({k for n_, _, at in vs for k, _ in at if k in dict(enc_o).get(n_, [])})
+                        sig += "/both-in-attrs-and-encoding=" + ",".join(clash)
+                        what += f" (keys {clash} are both attributes and .encoding entries of a variable: to_netcdf refuses)"
                     if "serialisable" in cl:
                         bad = sorted({k for _, _, at in vs for k, kd in at if kd >= 3})
                         sig += "/attrs=" + ",".join(bad)
@@ -523,7 +568,7 @@ def execute(H, driver, stats=None):
             extras = [v for v in iv if v[0] not in ("node_lon", "node_lat", "face_node_connectivity")]
             return f"{enc_rows(m.rows())} {m.n_node} {int('node_lon' in names)} {N.vars(extras)}"
 
-        encg = " ".join([str(len(ms))] + [ds0(m, iv) for m, iv in zip(ms, init_vars)])
+        encg = " ".join([str(len(ms))] + [ds0(m, iv) + " " + N.topo(ie) for m, iv, ie in zip(ms, init_vars, init_enc)])
         ans = common.Tok(driver.ask("C07.run", REPAIRED, N.topo(base), encg, str(len(model_ops)), " ".join(model_ops)))
         model_outs = parse_outs(ans, N)
         final_tmpl = parse_topo(ans, N)
@@ -595,7 +640,8 @@ def parse_outs(t, N):
         elif tag == 1:
             topo = parse_topo(t, N)
             vs = parse_vars(t, N)
-            outs.append(("ugrid", dict(vars=canon_vars(vs), topo=dict(topo))))
+            enc_m = parse_topo(t, N)
+            outs.append(("ugrid", dict(vars=canon_vars(vs), topo=dict(topo), encoding={k: sorted(v) for k, v in enc_m if v})))
         elif tag == 2:
             if t.int() == 0:
                 outs.append(("exodus", None))
@@ -762,6 +808,15 @@ def directed(rng):
                   ops=[["mat", 0, TABLES + ["face_lon", "bounds"]], ["enc", 0, "ugrid", "encode_as"], ["enc", 1, "ugrid", "to_xarray"],
                        ["enc", 0, "exodus", "to_xarray"]]))
     out = [dict(meshes=[mesh_json(m) for m in h["meshes"]], ops=h["ops"]) for h in H]
+    # file-sourced RE-exports of grids whose lowest-numbered node(s) no face uses: the first grid is exported as
+    # UGRID / Exodus / SCRIP, written, re-opened - and that re-opened grid is exported again in all three formats
+    for where in ("start", "middle"):
+        mo = with_orphans(rng.choice([mixed, uni, three]), rng, where)
+        for f0 in FMTS:
+            out.append(dict(meshes=[mesh_json(mo, "reopened:" + f0)], ops=[["enc", 0, f, api(rng)] for f in FMTS]))
+        out.append(dict(meshes=[mesh_json(mo, "reopened:ugrid")],
+                        ops=[["mat", 0, ["edge_node_connectivity", "face_face_connectivity", "node_face_connectivity"]],
+                             ["enc", 0, "ugrid", api(rng)], ["enc", 0, "exodus", api(rng)]]))
     # every entry point x every format x every kind of source, on a FRESH grid (nothing asked of it before) and
     # after materialisations: the export must not depend on which dispatcher was called
     for src in ("topology", "xyz"):
@@ -798,7 +853,8 @@ def random_history(rng, big=False):
             n_enc += 1
     if n_enc == 0:
         ops.append(["enc", rng.randrange(ng), rng.choice(FMTS), api(rng)])
-    return dict(meshes=[mesh_json(m, "xyz" if rng.random() < 0.25 else "topology") for m in ms], ops=ops)
+    return dict(meshes=[mesh_json(m, rng.choice(["xyz", "xyz", "reopened:ugrid", "reopened:exodus", "reopened:scrip"])
+                                  if rng.random() < 0.35 else "topology") for m in ms], ops=ops)
 
 
 def subset_histories(rng, count=None):
@@ -943,7 +999,9 @@ def run_history(ctx, H, tag):
 def run(ctx):
     ctx.rule = ("histories [materialise S on g_i | encode g_j as ugrid/exodus/scrip via Grid.to_xarray(fmt), Grid.to_xarray() or Grid.encode_as(FMT), "
                 "drawn at random and all mapped to the one model operation] over 1-3 grids; grids also opened from every readable sample "
-                "file under test/meshfiles (UGRID, Exodus, SCRIP, MPAS, GEOS-CS; ESMF/RLL1deg in the thorough tier) "
+                "file under test/meshfiles (UGRID, Exodus, SCRIP, MPAS, GEOS-CS; ESMF/RLL1deg in the thorough tier) and grids that are "
+                "the re-opened netCDF file of an earlier UGRID/Exodus/SCRIP export (unused first nodes included); xarray's .encoding of "
+                "every variable is observed and judged by the model's to_netcdf conflict rule "
                 "(harness/meshes generators, built by Grid.from_topology (lon/lat only) or Grid.from_face_vertices (Cartesian only): uniform tri/quad, prisms/antiprisms (two sizes), split prisms and merged duals "
                 "(three or more sizes), partial lattices/fans/isolated faces, random renumbering/rotation, nodes that no face uses at the "
                 "start/middle/end of the numbering, an isolated first face; sizes 3..8, plus 9-/10-gons), "
@@ -963,6 +1021,7 @@ def run(ctx):
     rng = ctx.rng
     # the regenerated Lean table is the live module's template (translator tie)
     N = st["names"]
+    ctx.hit("exodus-element-types-total=" + ctx.driver.ask("C07.exototal"))
     lean_tmpl = parse_topo(common.Tok(ctx.driver.ask("C07.template")), N)
     if dict(lean_tmpl) != dict(split_topo(st["base"])):
         ctx.mismatch("C07/translator/BASE_GRID_TOPOLOGY_ATTRS", dict(module=st["base"]), dict(split_topo(st["base"])), dict(lean_tmpl))
